@@ -161,7 +161,9 @@ func (d *Database) FindEmitterSequenceGap(prefix vaa.VAAID) (resp []uint64, firs
 	if err = d.db.View(func(txn *badger.Txn) error {
 		it := txn.NewIterator(badger.DefaultIteratorOptions)
 		defer it.Close()
-		prefix := prefix.EmitterPrefixBytes()
+		// The emitter prefix ends in the decimal target chain without a separator:
+		// add the separator so that target chain 2 does not also match 255, 1 not 10..17, 4 not 42.
+		prefix := append(prefix.EmitterPrefixBytes(), '/')
 
 		// Find all sequence numbers (the message IDs are ordered lexicographically,
 		// rather than numerically, so we need to sort them in-memory).
